@@ -441,9 +441,9 @@ struct ExecObs {
     outcome: Outcome,
     pkt_after: Vec<u8>,
     mb_after: Vec<u8>,
-    probe_r1: Option<u64>,
-    probe_slot: Option<(u64, u64)>,
-    probe_stack: Option<u64>,
+    probe_r1: Option<(u64, u64)>,
+    probe_slot: Option<(u64, u64, u64)>,
+    probe_stack: Option<(u64, u64)>,
     helper_log: Vec<(u8, [u64; 5])>,
 }
 
@@ -646,7 +646,10 @@ impl<'s> Runner<'s> {
                     Kind::NoData => 0,
                     Kind::Fixed => return None,
                 };
-                let (a, b) = (r0?, obs.probe_r1?);
+                let (a, (b, btag)) = (r0?, obs.probe_r1?);
+                if btag != prog.tag as u64 {
+                    return None; // some other program ran: not this probe's business
+                }
                 self.counters.inc("c09_r1_checks");
                 if a != expected && b != expected {
                     let rel = |v: u64| if v == 0 { "null".to_string() } else if v == pptr && pptr != 0 { "packet".to_string() } else { "other".to_string() };
@@ -662,7 +665,10 @@ impl<'s> Runner<'s> {
                     return None;
                 }
                 let a = r0?;
-                let (sd, se) = obs.probe_slot?;
+                let (sd, se, stag) = obs.probe_slot?;
+                if stag != prog.tag as u64 {
+                    return None;
+                }
                 self.counters.inc("c09_slot_checks");
                 if prog.class == Class::ProbeSlotData {
                     if plen == 0 {
@@ -687,6 +693,14 @@ impl<'s> Runner<'s> {
                     return None;
                 }
                 let expected = ((self.sc.packets[pkt][idx] as u64) << 8) | prog.tag as u64;
+                if let Some(v) = r0 {
+                    if v & 0xff != prog.tag as u64 || v >> 16 != 0 {
+                        return None; // not the value shape of this probe: another program ran
+                    }
+                }
+                if !fresh && !matches!(obs.outcome, Outcome::Ok(_)) {
+                    return None; // an error of the history VM is compared with the fresh VM (C10)
+                }
                 self.counters.inc("c09_pkt_checks");
                 match r0 {
                     Some(v) if v == expected => {}
@@ -698,15 +712,20 @@ impl<'s> Runner<'s> {
                 let expected = prog.p0 as u64;
                 self.counters.inc("c09_stack_checks");
                 match (&obs.outcome, obs.probe_stack) {
-                    (Outcome::Ok(a), Some(b)) => {
+                    (Outcome::Ok(a), Some((b, btag))) => {
+                        if btag != prog.tag as u64 {
+                            return None;
+                        }
                         if *a != expected && b != expected {
                             return self.c09(format!("stack-top/{}", engine.name()), at, format!("{}: value stored at r10-512 read back as {:#x} (load) / {:#x} (helper), expected {:#x}", who, a, b, expected));
                         }
                     }
-                    (Outcome::Err(e), _) if e.contains("out of bounds") => {
+                    // errors and crashes of the history VM are compared with the fresh VM (C10); only the
+                    // fresh VM's own failure says something absolute about the stack window
+                    (Outcome::Err(e), _) if fresh && e.contains("out of bounds") => {
                         return self.c09(format!("stack-top/{}", engine.name()), at, format!("{}: access inside [r10-512, r10) refused: {}", who, e.lines().next().unwrap_or("")));
                     }
-                    (Outcome::Signal(s), _) => {
+                    (Outcome::Signal(s), _) if fresh => {
                         return self.c09(format!("stack-top/{}", engine.name()), at, format!("{}: access inside [r10-512, r10) died with signal {}", who, s));
                     }
                     _ => {}
@@ -820,6 +839,12 @@ impl<'s> Runner<'s> {
         self.restore_buffers(pkt, mb);
         self.log_obs(tag, engine, Some(pid), &obs);
         self.t(|| format!("    {}({}, pkt#{}, mb#{}) -> {}   [expected {}]", tag, engine.name(), pkt, mb, obs.outcome.short(), refs.iter().map(|r| r.1.outcome.short()).collect::<Vec<_>>().join(" or ")));
+        // C09's absolute expectations apply to the history VM's execution whatever the fresh VM
+        // says (a context that is only wrong after a particular history is still a wrong context);
+        // the probe channels carry the program's tag, so a stale program is never judged here.
+        if let Some(stop) = self.c09_check(pid, engine, pkt, mb, &obs, at, false) {
+            return Err(stop);
+        }
         if case == Case::Stale && obs.outcome.is_err() {
             // invalidated compiled code: the documented "not compiled" error
             self.counters.inc("stale_compiled_exec_refused");
@@ -847,10 +872,6 @@ impl<'s> Runner<'s> {
             }
             if case == Case::Stale {
                 self.counters.inc("stale_compiled_exec_ran_current_program");
-            }
-            // C09 absolute expectations on the history VM's execution
-            if let Some(stop) = self.c09_check(pid, engine, pkt, mb, &obs, at, false) {
-                return Err(stop);
             }
             return Ok(());
         }
